@@ -106,7 +106,9 @@ end
 
 /-- exactly one TLV spanning the whole input -/
 def decOne (b : Bytes) : Option TLV :=
-  match decTLV (b.length + 1) b with
+  -- (every level of nesting costs two units of fuel and every sibling one: 2·length + 2 always suffices,
+  --  see `depth_le_length`)
+  match decTLV (2 * b.length + 2) b with
   | some (t, []) => some t
   | _ => none
 
